@@ -5,12 +5,14 @@ func init() {
 		Jobs: []Job{
 			{Workload: "C04.quantile", Mode: "plain", QuickB: 16, ThoroughB: 16},
 			{Workload: "C04.binding", Mode: "plain", QuickB: 16, ThoroughB: 16},
+			{Workload: "C04.priority", Mode: "plain", QuickB: 16, ThoroughB: 16},
 			// the VRF's curve arithmetic goes through cgo libsecp256k1: same workload under ASan
 			{Workload: "C04.binding", Mode: "asan", QuickB: 8, ThoroughB: 16, ThoroughT: 7200, ThoroughOnly: true},
 		},
 		Level: "exploration",
 		Rule: "C04.quantile: PRNG-drawn (stake, p) configurations (protocol committee sizes 26/2000/4000 and random ones over integer total stakes, n·p at the forward-scan/binary-search switch 20, arbitrary p, p→1, tiny p, stakes 1..30; stake ≤ 10^7, expected seats ≤ 12000) × per configuration ~600-1000 VRF outputs: 0, 1, 2^256-1 and other edges, 33 values around the float64 0.99 switch-over (±1, ±2^200..2^203), uniform, log-spaced into both tails down to 1e-77, and outputs *targeted* at the exact decision boundaries Pr(X≤k) for ~40 seat counts k per configuration (extremes, mode, switch-over quantiles, deep tails) at 15 offsets of −4…+4 tolerance widths (|θ|≥2 lies outside the abstention band and is decisive against an off-by-one in either direction; |θ|≤0.5 measures the implementation's float error as a fraction of the band). Every answer of the real `choose` is range-checked and compared with an exact 384-bit binomial table built from the pmf ratio recurrence; the oracle abstains only inside tol(k)=rho(n)·min(Pr(X≤k),Pr(X>k))+2^-51·pmf(k)(n−k), rho(n)=clamp(64·2^-53·n·ln n,1e-10,1e-6). p=1 and p=0 are judged by their exact rule; p>1 must not panic and stay in [0,stake]. " +
-			"C04.binding: real credentials from VrfSortition (keys incl. 1,2,3, N-1.., short scalars; indexes/steps incl. 0 and 2^32-1; expected seats 0.05…400): VRF value and point compared with an independent math/big secp256k1 + SHA-2 reference, seat count with the exact table, ProofToHash on an independently built message, honest credential accepted iff seats≥1, then ~35 single-field perturbations (key, 4 seed bits, index ±1/bit, step ±1/bit, step↔index, seat count ±1/0/bit31/other, 8 proof bits in s/t/format byte/x/y, 5 length changes, negated point, proof of another message, proof of another key, s↔t) must all be rejected by VrfVerifySortition, 6 perturbations of threshold/stake/total are judged by the seat-count oracle, the priority must equal the reference max Keccak(value‖i), verify, and every other candidate (other seat hashes, bit flips, 0, value, all-ones) and 10 field perturbations must be rejected by VrfVerifyPriority; plus zero-seat priorities, degenerate proof scalars (s,t ∈ {0, N, N+1.., 2^256-1}) and threshold>total through the exported entry points. distinct_nontrivial = distinct (generator kind, code branch, stake decade, mean decade, hash kind, outcome bucket) resp. (key kind, committee, stake decade, seat bucket) signatures.",
+			"C04.binding: real credentials from VrfSortition (keys incl. 1,2,3, N-1.., short scalars; indexes/steps incl. 0 and 2^32-1; expected seats 0.05…400): VRF value and point compared with an independent math/big secp256k1 + SHA-2 reference, seat count with the exact table, ProofToHash on an independently built message, honest credential accepted iff seats≥1, then ~35 single-field perturbations (key, 4 seed bits, index ±1/bit, step ±1/bit, step↔index, seat count ±1/0/bit31/other, 8 proof bits in s/t/format byte/x/y, 5 length changes, negated point, proof of another message, proof of another key, s↔t) must all be rejected by VrfVerifySortition, 6 perturbations of threshold/stake/total are judged by the seat-count oracle, the priority must equal the reference max Keccak(value‖i), verify, and every other candidate (other seat hashes, bit flips, 0, value, all-ones) and 10 field perturbations must be rejected by VrfVerifyPriority; plus zero-seat priorities, degenerate proof scalars (s,t ∈ {0, N, N+1.., 2^256-1}) and threshold>total through the exported entry points. distinct_nontrivial = distinct (generator kind, code branch, stake decade, mean decade, hash kind, outcome bucket) resp. (key kind, committee, stake decade, seat bucket) signatures." +
+			" C04.priority: VrfComputePriority against the reference for seat counts up to 4096 and across 65536 - edge and random seat counts, and directed VRF values whose largest seat hash falls exactly on a multiple of 256 (found with the reference).",
 		Explanation: "held = on the executions of this run every seat count was the exact binomial quantile (outside the stated float band), stayed in [0, stake], no call panicked, every honest credential/priority verified and no perturbed one did",
 		Assumptions: []string{
 			"the exact table (pmf ratio recurrence at 384 bits, window cut at 2^-460 of the mode) is the binomial distribution; checked per run against pmf sums and against closed forms for p=1",
@@ -28,6 +30,7 @@ func init() {
 			"stake_params_same_quantile": 3000, "stake_params_other_quantile": 6000,
 			"honest_priority_accepted": 2000, "priority_candidates_rejected": 15000,
 			"zero_seat_priority_probes": 20, "degenerate_scalar_probes": 9,
+			"priority_function_compared": 800, "priority_directed_values": 40, "priority_argmax_on_multiple_of_256": 80, "priority_argmax_seat_ge_256": 200,
 		},
 	}
 }
